@@ -477,6 +477,10 @@ where
 
         if self.vring_needs_init(vring) {
             self.initialize_vring(vring, index)?;
+        } else {
+            // The ring is already started: the worker must poll the newly installed descriptor
+            // (the previous one was closed when it was replaced).
+            self.update_vring_registration(vring, index)?;
         }
 
         Ok(())
